@@ -5,7 +5,7 @@ EXPLANATION = ('The format_spec fields (alignment, pad, zero-pad flag, width inc
                '(digits for radix 16, 8, 2 at full width; radix 10 at 8 and 16 bits), format_char, and the sequential-vs-&N selection of the real apply_format are compared with a reference renderer written from the property text. '
                'Literal/escape handling of the driver is asserted in C10 (reference scanner).')
 BOUNDS = {'quick': 'width <= 8 (all negative widths included), text/digit strings <= 4 bytes (integers: as many digits as the type needs), precision: any int', 'thorough': 'width <= 16, text <= 6 bytes'}
-OUTSIDE = 'widths above the bound; decimal rendering of 32/64-bit values (division loops: no verdict on any back end, see C12); floating point (C13); spec extraction from the format text beyond what C10 parses'
+OUTSIDE = 'widths above the bound; decimal rendering of 32/64-bit values outside the windows of 2^16 values at the ends of the type, around zero and around +-10^9 / 10^18 (whole domain: no verdict on any back end, see C12); floating point (C13); spec extraction from the format text beyond what C10 parses'
 INTS = [('schar', 8, 1), ('uchar', 8, 0), ('short', 16, 1), ('ushort', 16, 0), ('int', 32, 1), ('uint', 32, 0), ('long', 64, 1), ('ulong', 64, 0), ('llong', 64, 1), ('ullong', 64, 0)]
 import math
 def queries():
@@ -26,6 +26,23 @@ def queries():
             tier = 'quick' if (bits == 8 or (bits == 16 and rn in ('hex', 'HEX', 'oct')) or rn == 'hex') and nm not in ('long', 'ulong') else 'thorough'   # 16-bit decimal: 140-170 s, 32/64-bit binary: 150-600 s
             qs.append(Q('int_%s_%s' % (nm, rn), 'C11_render.c', 'format.cpp', defs={'OP': 5, 'ITYPE': nm, 'IBITS': bits, 'ISIGNED': sg, 'RADIX_CLASS': rc, 'W': 8, 'T': digits}, models=M,
                         unwind=digits + 8 + 8 + 6, tiers=(tier, 'thorough') if tier == 'quick' else ('thorough',), bound={'type': nm, 'radix': rad, 'values': 'all 2^%d' % bits, 'width<=': 8}, timeout=600 if tier == 'quick' else 3000))
+    # decimal at 32/64 bits, every flag combination, on windows of 2^16 values (both ends of the type incl. the most negative value, around zero, around +-10^9 / 10^18): see C12
+    def swin(bits, sg):
+        if sg:
+            mn, mx = -(1 << (bits - 1)), (1 << (bits - 1)) - 1; p = 10 ** (9 if bits == 32 else 18)
+            return [('min', mn, mn + 65535), ('zero', -32768, 32767), ('max', mx - 65535, mx), ('negp', -p - 32768, -p + 32767), ('posp', p - 32768, p + 32767)]
+        mx = (1 << bits) - 1; p = 10 ** (9 if bits == 32 else 19)
+        return [('zero', 0, 65535), ('max', mx - 65535, mx), ('posp', p - 32768, p + 32767)]
+    def cint(v, sg): return ('(%dLL - 1)' % (v + 1)) if v < 0 and sg else (('%dLL' % v) if sg else ('%dULL' % v))
+    for nm, bits, sg in INTS:
+        if bits <= 16: continue
+        digits = int(math.ceil(bits / math.log2(10)))
+        for wn, lo, hi in swin(bits, sg):
+            defs = {'OP': 5, 'ITYPE': nm, 'IBITS': bits, 'ISIGNED': sg, 'RADIX_CLASS': 1, 'W': 8, 'T': digits}
+            defs.update({'VMIN': cint(lo, 1), 'VMAX': cint(hi, 1)} if sg else {'VMINU': cint(lo, 0), 'VMAX': cint(hi, 0)})
+            quick = (nm, wn) in (('int', 'min'), ('int', 'max'), ('llong', 'min'))     # measured under load: 30-80 s; the windows around zero (digit count 1..5 symbolic) take 230-480 s: thorough
+            qs.append(Q('int_%s_dec_win_%s' % (nm, wn), 'C11_render.c', 'format.cpp', defs=defs, models=M, unwind=digits + 8 + 8 + 6, tiers=('quick', 'thorough') if quick else ('thorough',),
+                        bound={'type': nm, 'radix': 10, 'values': '[%d, %d]' % (lo, hi), 'width<=': 8}, timeout=900))
     SEL = [('{}{}{}', 'ABBCCC'), ('{&3}{}{}', 'CCCABB'), ('{}{&1}{}', 'AABB'), ('{&2}{&2}{}', 'BBBBA'), ('{}{&3}{&1}{}', 'ACCCABB'), ('x{&2}y{}z', 'xBByAz')]
     for k, (f, e) in enumerate(SEL):
         qs.append(Q('select_%d' % k, 'C11_render.c', 'format.cpp', defs={'OP': 6, 'FMT': '"%s"' % f, 'EXPECT': '"%s"' % e, 'W': 8, 'T': 4}, models=M, unwind=24, object_bits=10, bound={'format': f, 'expected': e}))
